@@ -278,7 +278,10 @@ func swapping(cfg fw.Config, rec *fw.Rec, round int) {
 // while walkers keep walking whatever version they obtained.
 func derived(cfg fw.Config, rec *fw.Rec, round int) {
 	stampSrc := func(k int) string {
-		return fmt.Sprintf("var bs = _.bindings; bs.stamps = (bs.stamps || []).concat([%d]); return bs;", k)
+		// each version stamps through a helper it installs on a built-in object when it
+		// does not find one: an execution that inherits anything from an execution of
+		// another version stamps that version
+		return fmt.Sprintf("var bs = _.bindings; if (Math.vtag === undefined) { Math.vtag = %d; } bs.stamps = (bs.stamps || []).concat([Math.vtag]); return bs;", k)
 	}
 	build := func(k int) (*core.Spec, error) {
 		src := func() *core.ActionSource { return &core.ActionSource{Interpreter: "ecmascript", Source: stampSrc(k)} }
@@ -340,8 +343,11 @@ func derived(cfg fw.Config, rec *fw.Rec, round int) {
 			for i := 0; i < 60; i++ {
 				var w *core.Walked
 				var err error
+				var walkedVersion string
 				if rec.Guard("C12:derived", "walk during derivation of new versions", func() {
-					w, err = us.Spec().Walk(context.Background(), &core.State{NodeName: "start", Bs: match.Bindings{}}, nil, &core.Control{Limit: 10}, nil)
+					sp := us.Spec()
+					walkedVersion = sp.Version
+					w, err = sp.Walk(context.Background(), &core.State{NodeName: "start", Bs: match.Bindings{}}, nil, &core.Control{Limit: 10}, nil)
 				}) {
 					atomic.AddInt32(&bad, 1)
 					return
@@ -358,9 +364,9 @@ func derived(cfg fw.Config, rec *fw.Rec, round int) {
 						}
 					}
 				}
-				if err != nil || to == nil || to.NodeName != "done" || len(seen) != 1 || n != 5 {
+				if err != nil || to == nil || to.NodeName != "done" || len(seen) != 1 || n != 5 || !seen[walkedVersion] {
 					if atomic.AddInt32(&bad, 1) == 1 {
-						rec.Violation("C12:mixed-versions:derived", fmt.Sprintf("a walk over a version in use, while the next version was being derived from it with Spec.Copy and compiled, carries stamps %v and ends at %v", seen, to), map[string]interface{}{"trace": traceOf(w, err)})
+						rec.Violation("C12:mixed-versions:derived", fmt.Sprintf("a walk over a version in use, while the next version was being derived from it with Spec.Copy and compiled, (version %s) carries stamps %v and ends at %v", walkedVersion, seen, to), map[string]interface{}{"trace": traceOf(w, err)})
 					}
 					return
 				}
@@ -382,7 +388,7 @@ func Run(cfg fw.Config, rec *fw.Rec) {
 	procs := []int{2, 4, 16}[cfg.Batch%3]
 	runtime.GOMAXPROCS(procs)
 	rec.Bucket(fmt.Sprintf("gomaxprocs_%d", procs))
-	rec.Rule = "shared part: one compiled spec object (random 5-node spec plus property-variable, inequality, @var-target, guarded and permanent-binding branches; native and ECMAScript) walked by 16/32/64 goroutines x 6 walks on distinct machine states, each result compared with the solo result computed beforehand, structural snapshot of the spec compared afterwards; swap part: 16 walkers over an UpdatableSpec while a swapper installs one of 4 versions whose every action, guard and branch target stamps its version; each walk must carry stamps of exactly one version; derived part: the swapper derives each next version from the installed one with Spec.Copy, re-stamps and compiles it while 8 walkers walk the version they obtained; child built with -race, GOMAXPROCS 2/4/16 by batch; non-trivial = round in which every concurrent result agreed; distinct by spec / round"
+	rec.Rule = "shared part: one compiled spec object (random 5-node spec plus property-variable, inequality, @var-target, guarded and permanent-binding branches; native and ECMAScript) walked by 16/32/64 goroutines x 6 walks on distinct machine states, each result compared with the solo result computed beforehand, structural snapshot of the spec compared afterwards; swap part: 16 walkers over an UpdatableSpec while a swapper installs one of 4 versions whose every action, guard and branch target stamps its version; each walk must carry stamps of exactly one version; derived part: the swapper derives each next version from the installed one with Spec.Copy, re-stamps and compiles it while 8 walkers walk the version they obtained (each version stamps through a helper it installs on a built-in object if none is there, so anything an execution inherits from another version's execution shows as a foreign stamp); child built with -race, GOMAXPROCS 2/4/16 by batch; non-trivial = round in which every concurrent result agreed; distinct by spec / round"
 	rec.Required = []string{"shared_rounds_equal_to_solo", "shared_native", "shared_ecma", "swap_rounds_coherent", "swap_walks_straddling_a_swap", "derived_rounds_coherent"}
 	rec.Assume = []string{"the race detector reports only races that occur in the interleavings produced; absence over N runs is evidence, not proof", "a processing call obtains the spec once via Specter.Spec(), as sio and mcrew do"}
 	rounds := cfg.Pick(24, 60)
